@@ -277,8 +277,45 @@ theorem rendered_line_limit (c : Cfg) (cont line : List Char) :
     marker; the Fortran emitter takes `F_line_length` and the marker `" &"`; and
     the default `F_line_length` plus the marker stays within Fortran's 132 columns. -/
 theorem emitter_line_config :
-    Shroud.Gen.LineCfg.emitterLineCfg = [(0, 0, []), (1, 1, [32, 38]), (2, 0, []), (3, 0, [])] ∧
+    Shroud.Gen.LineCfg.emitterLineCfg = [(0, 0, 0, []), (1, 1, 0, [32, 38]), (2, 0, 0, []), (3, 0, 0, [])] ∧
     Shroud.Gen.LineCfg.lineLengthDefaults.2 + 2 ≤ 132 := by decide +kernel
+
+/-- the line length the property speaks about: the language's own option (emitter 1 is Fortran) -/
+def nominalLen (e cLen fLen : Nat) : Nat := if e = 1 then fLen else cLen
+/-- the language's continuation marker -/
+def nominalCont (e : Nat) : List Char := if e = 1 then " &".toList else []
+
+/-- **emitter configuration composed with `write_continue`** (table regenerated from the working tree): what an
+    emitter writes for a logical line is `write_continue` at exactly the value of the language's own option - nothing
+    is added to or taken from the option on the way from `__init__` to the fill loop - with the language's marker. -/
+theorem emitter_respects_option (e cLen fLen : Nat) (he : e < 4) (indent : Int) (spaces line : List Char) :
+    emitterWrite Shroud.Gen.LineCfg.emitterLineCfg e cLen fLen indent spaces line
+      = some (render (nominalCont e) (wcBodies ⟨nominalLen e cLen fLen, indent, spaces⟩ line)) := by
+  have h : e = 0 ∨ e = 1 ∨ e = 2 ∨ e = 3 := by omega
+  rcases h with rfl | rfl | rfl | rfl <;>
+    simp [emitterWrite, emitterCfg, optValue, Shroud.Gen.LineCfg.emitterLineCfg, nominalLen, nominalCont, List.find?]
+
+/-- consequently every physical line an emitter writes is within the OPTION's value plus the marker, unless it holds
+    a single part (no break point could help); this is the bound judged against the option, not against `self.linelen` -/
+theorem emitter_line_limit (e cLen fLen : Nat) (he : e < 4) (indent : Int) (spaces line : List Char) :
+    ∃ phys, emitterWrite Shroud.Gen.LineCfg.emitterLineCfg e cLen fLen indent spaces line = some phys ∧
+      ∃ gs : List Grp, gs.length = phys.length ∧
+        ∀ (j : Nat) (h1 : j < phys.length) (h2 : j < gs.length),
+          (phys[j]).length ≤ nominalLen e cLen fLen + (nominalCont e).length ∨ (gs[j]).saved.length ≤ 1 :=
+  ⟨_, emitter_respects_option e cLen fLen he indent spaces line,
+    rendered_line_limit ⟨nominalLen e cLen fLen, indent, spaces⟩ (nominalCont e) line⟩
+
+example : emitterWrite Shroud.Gen.LineCfg.emitterLineCfg 1 72 8 0 "    ".toList "ab,\t cd,\t ef".toList
+          = some ["ab, cd, &".toList, "    ef".toList] := by decide +kernel
+
+/-- **no history.**  In any sequence of calls (one instance or several, one process), the result of a call is the
+    result of that call alone: the layout of a line does not depend on lines written, or line lengths used, before. -/
+theorem wc_history_free (pre post : List (Cfg × List Char × List Char)) (c : Cfg) (cont line : List Char) :
+    (wcSession (pre ++ (c, cont, line) :: post))[pre.length]? = some (render cont (wcBodies c line)) := by
+  simp [wcSession]
+
+example : wcSession [(⟨80, 0, "    ".toList⟩, "&".toList, "ab,\t cd".toList), (⟨4, 0, "    ".toList⟩, "&".toList, "ab,\t cd".toList)]
+          = [["ab, cd".toList], ["ab,&".toList, "    cd".toList]] := by decide +kernel
 
 
 /-! ### non-vacuity -/
